@@ -523,6 +523,28 @@ func checkConsole(r *seq.Run, c consoleCfg, line []byte, root *jsonstrict.Node, 
 		r.Violation("", "console/result", fmt.Sprintf("Write returned (%d,%v) / (%d,%v), want (%d,nil)\n  %s", n1, err1, n2, err2, len(line), desc()), p.String())
 		return
 	}
+	// the same configuration reached through the constructor: once through an option function, once by
+	// assigning the fields of the returned value afterwards (both are ordinary uses of the exported fields)
+	{
+		var b3, b4 bytes.Buffer
+		ref := c.writer(&b3)
+		w3 := zerolog.NewConsoleWriter(func(w *zerolog.ConsoleWriter) { *w = ref })
+		w4 := zerolog.NewConsoleWriter(func(w *zerolog.ConsoleWriter) { w.Out, w.NoColor = &b4, true })
+		r4 := c.writer(&b4)
+		if c.partsOrder != nil {
+			w4.PartsOrder = r4.PartsOrder
+		}
+		w4.PartsExclude, w4.FieldsOrder, w4.FieldsExclude, w4.TimeLocation = r4.PartsExclude, r4.FieldsOrder, r4.FieldsExclude, r4.TimeLocation
+		if c.timeFormat != "" {
+			w4.TimeFormat = c.timeFormat
+		}
+		n3, err3 := w3.Write(line)
+		n4, err4 := w4.Write(line)
+		if err3 != nil || err4 != nil || n3 != len(line) || n4 != len(line) || b3.String() != got || b4.String() != got {
+			r.Violation("", "console/constructor", fmt.Sprintf("a writer built by NewConsoleWriter renders the event differently from the struct literal with the same fields: via an option %q (%d,%v), via assignment afterwards %q (%d,%v), literal %q\n  %s", b3.String(), n3, err3, b4.String(), n4, err4, got, desc()), p.String())
+			return
+		}
+	}
 	if !c.sameCfg(w1) || !c.sameCfg(w2) {
 		r.Violation("", "console/config-modified", fmt.Sprintf("Write modified the caller's configuration slices: PartsOrder=%q PartsExclude=%q FieldsOrder=%q FieldsExclude=%q\n  %s", w1.PartsOrder, w1.PartsExclude, w1.FieldsOrder, w1.FieldsExclude, desc()), p.String())
 		return
